@@ -800,6 +800,10 @@ def judge_c09(ctx, recs, info):
         except (ValueError, IndexError) as e:
             ctx.violation("%s:%s:deviates" % (o.name, cc), "unparsable record of %s in configuration %s: %s (%s)" % (o.name, r.inst.cfg, e, " ".join(r.toks[:40])), det)
             continue
+        hk0 = None if p is None else (p["hk"] if o.family == "view" else p[1]["hk"]).get("HK0")
+        if hk0 and any(v[0] for v in hk0.values()):
+            ctx.inconc("harness built an index argument outside its bounds in %s (%s)" % (r.inst.name, r.line))
+            continue
         if p is None:
             if r.toks[:2] == ["SKIP", "resize"]:
                 continue        # judged by C11 (operand type refuses a shape inside its static bounds)
